@@ -35,13 +35,14 @@ W_COMMON.update({'new': 1.0, 'tensordot': 5.0, 'add': 1.5, 'trace': 1.5, 'transp
                  'consume_transpose': 0.3})
 W_POLICY = dict(W_COMMON, linalg=0.6, apply_mask=0.7, broadcast=0.7, diag=0.3)
 W_FUSION = dict(W_COMMON)
+W_LAZY = dict(W_POLICY, add=4.0, transpose=3.5, T=0.6, H=0.6)      # sums of several operands with different pending transposes
 
 
 def draw_pair_case(data, tier):
     from hypothesis import strategies as st
     kind = data.draw(st.sampled_from(['policy', 'fusion', 'lazy', 'policy', 'lazy']))
     cfg = P.draw_cfg(data)
-    w = W_FUSION if kind == 'fusion' else W_POLICY
+    w = W_FUSION if kind == 'fusion' else W_LAZY if kind == 'lazy' else W_POLICY
     prog = P.draw_program(data, tier, cfg=cfg, min_steps=3, max_steps=7 if tier == 'quick' else 10, weights=w, live=True)
     # at most one factorisation
     seen, steps = False, []
